@@ -59,7 +59,7 @@ type Ctx struct {
 }
 
 func NewCtx(r *vlib.Run, c *Case) *Ctx {
-	return &Ctx{R: r, Case: c, SpinCPU: 2 * time.Second, WedgeWall: 40 * time.Second}
+	return &Ctx{R: r, Case: c, SpinCPU: 2 * time.Second, WedgeWall: 30 * time.Second}
 }
 
 // Violate reports an implementation-oracle violation for the current case.
@@ -158,6 +158,20 @@ func (x *Ctx) Await(c *Conn, call *Call) State {
 	lastConsumed := c.Consumed()
 	cpu0 := cpuTime()
 	t0 := time.Now()
+	stop := make(chan struct{})
+	defer close(stop)
+	go func() {
+		t := time.NewTicker(100 * time.Millisecond)
+		defer t.Stop()
+		for {
+			select {
+			case <-stop:
+				return
+			case <-t.C:
+				c.Nudge()
+			}
+		}
+	}()
 	for {
 		fin, stuck := c.WaitT(call.Op, 250*time.Millisecond)
 		if fin {
@@ -180,13 +194,13 @@ func (x *Ctx) Await(c *Conn, call *Call) State {
 			if c.Consumed() != lastConsumed {
 				continue
 			}
-			x.Violate("spin", fmt.Sprintf("%s neither returned nor blocked in Read and consumed no input during %.1fs of CPU time (consumed %d of %d fed bytes); log: %s; stacks:\n%s",
+			x.Violate("spin-"+sanitizeName(call.Name)+"-"+stuckSite(false), fmt.Sprintf("%s neither returned nor blocked in Read and consumed no input during %.1fs of CPU time (consumed %d of %d fed bytes); log: %s; stacks:\n%s",
 				call.Name, (cpuTime()-cpu0).Seconds(), c.Consumed(), c.Fed(), LogSummary(c.Log()), TransportStacks(4000)))
 			x.Stuck = true
 			return Stuck
 		}
 		if time.Since(t0) >= x.WedgeWall {
-			x.Violate("wedged", fmt.Sprintf("%s neither returned nor blocked in Read for %.0fs without consuming input (consumed %d of %d); log: %s; stacks:\n%s",
+			x.Violate("wedged-"+sanitizeName(call.Name)+"-"+stuckSite(false), fmt.Sprintf("%s neither returned nor blocked in Read for %.0fs without consuming input (consumed %d of %d); log: %s; stacks:\n%s",
 				call.Name, time.Since(t0).Seconds(), c.Consumed(), c.Fed(), LogSummary(c.Log()), TransportStacks(4000)))
 			x.Stuck = true
 			return Stuck
@@ -374,4 +388,33 @@ func NoGoroutinesLeft(settle time.Duration) (left []string) {
 		}
 		time.Sleep(2 * time.Millisecond)
 	}
+}
+
+func sanitizeName(s string) string {
+	f := strings.Fields(s)
+	if len(f) == 0 {
+		return "call"
+	}
+	return strings.Map(func(r rune) rune {
+		if r >= 'a' && r <= 'z' || r >= 'A' && r <= 'Z' || r >= '0' && r <= '9' {
+			return r
+		}
+		return '_'
+	}, f[len(f)-1])
+}
+
+// stuckSite names where the stuck endpoint goroutine is: the innermost function of the tree
+// on its stack (and, for a wedge, what it is parked on).
+func stuckSite(withState bool) string {
+	gs := TransportGoroutines()
+	if len(gs) == 0 {
+		return "unknown"
+	}
+	site := leakSite(gs[0])
+	if !withState {
+		if i := strings.Index(site, "-"); i >= 0 {
+			site = site[:i]
+		}
+	}
+	return site
 }
